@@ -4,6 +4,8 @@
 // values, tombstones, weak tombstones, blob pointers; any key / value length the formats admit) the decoder parses back to the
 // same type, seqno, key bytes and value bytes, leaving the cursor at the next entry.  Obligation C12.14
 use vstd::prelude::*;
+use vstd::arithmetic::div_mod::*;
+use vstd::arithmetic::mul::*;
 
 //@ FROM src/lib.rs :: - :: macro_rules unwrap
 macro_rules! unwrap {
@@ -35,14 +37,23 @@ impl Bytes {
 uninterp spec fn var64(x: u64) -> Seq<u8>;
 uninterp spec fn var32(x: u32) -> Seq<u8>;
 uninterp spec fn var16(x: u16) -> Seq<u8>;
-/// `W: std::io::Write` with byteorder / varint_rs extension methods: `written()` = bytes accepted so far
-struct Sink { ghost written: Seq<u8> }
-impl Sink {
-    #[verifier::external_body] fn write_u8(&mut self, x: u8) -> (r: Result<(), Error>) ensures r is Ok ==> final(self).written == old(self).written + seq![x] { unimplemented!() }
-    #[verifier::external_body] fn write_u64_varint(&mut self, x: u64) -> (r: Result<(), Error>) ensures r is Ok ==> final(self).written == old(self).written + var64(x) { unimplemented!() }
-    #[verifier::external_body] fn write_u32_varint(&mut self, x: u32) -> (r: Result<(), Error>) ensures r is Ok ==> final(self).written == old(self).written + var32(x) { unimplemented!() }
-    #[verifier::external_body] fn write_u16_varint(&mut self, x: u16) -> (r: Result<(), Error>) ensures r is Ok ==> final(self).written == old(self).written + var16(x) { unimplemented!() }
-    #[verifier::external_body] fn write_all(&mut self, b: &[u8]) -> (r: Result<(), Error>) ensures r is Ok ==> final(self).written == old(self).written + b@ { unimplemented!() }
+/// `W: std::io::Write` with byteorder / varint_rs extension methods: `written()` = bytes accepted so far.  Vec<u8> is a writer
+/// whose accepted bytes are its content.
+trait IoWrite: Sized {
+    spec fn written(&self) -> Seq<u8>;
+    fn write_u8(&mut self, x: u8) -> (r: Result<(), Error>) ensures r is Ok ==> (*final(self)).written() == (*old(self)).written() + seq![x];
+    fn write_u64_varint(&mut self, x: u64) -> (r: Result<(), Error>) ensures r is Ok ==> (*final(self)).written() == (*old(self)).written() + var64(x);
+    fn write_u32_varint(&mut self, x: u32) -> (r: Result<(), Error>) ensures r is Ok ==> (*final(self)).written() == (*old(self)).written() + var32(x);
+    fn write_u16_varint(&mut self, x: u16) -> (r: Result<(), Error>) ensures r is Ok ==> (*final(self)).written() == (*old(self)).written() + var16(x);
+    fn write_all(&mut self, b: &[u8]) -> (r: Result<(), Error>) ensures r is Ok ==> (*final(self)).written() == (*old(self)).written() + b@;
+}
+impl IoWrite for Vec<u8> {
+    spec fn written(&self) -> Seq<u8> { self@ }
+    #[verifier::external_body] fn write_u8(&mut self, x: u8) -> (r: Result<(), Error>) { unimplemented!() }
+    #[verifier::external_body] fn write_u64_varint(&mut self, x: u64) -> (r: Result<(), Error>) { unimplemented!() }
+    #[verifier::external_body] fn write_u32_varint(&mut self, x: u32) -> (r: Result<(), Error>) { unimplemented!() }
+    #[verifier::external_body] fn write_u16_varint(&mut self, x: u16) -> (r: Result<(), Error>) { unimplemented!() }
+    #[verifier::external_body] fn write_all(&mut self, b: &[u8]) -> (r: Result<(), Error>) { unimplemented!() }
 }
 
 //@ FROM src/value_type.rs :: - :: enum ValueType
@@ -99,7 +110,6 @@ struct InternalKey { user_key: Bytes, seqno: SeqNo, value_type: ValueType }
 struct InternalValue { key: InternalKey, value: Bytes }
 impl InternalValue {
     fn is_tombstone(&self) -> (r: bool) ensures r == is_tomb(self.key.value_type) { self.key.value_type.is_tombstone() }
-    fn key(&self) -> (r: &Bytes) ensures r == &self.key.user_key { &self.key.user_key }
 }
 
 /// the value part of an encoded entry: nothing for tombstones, else varint length + bytes
@@ -115,22 +125,21 @@ spec fn trunc_bytes(e: InternalValue, shared: int) -> Seq<u8> {
 spec fn fits(e: InternalValue) -> bool { e.key.user_key.view().len() <= u16::MAX && e.value.view().len() <= u32::MAX }
 
 //@ SUBST `crate :: Result < ( ) >` ==> `Result<(), Error>`
-//@ SUBST `< W : std :: io :: Write >` ==> ``
-//@ SUBST `writer : & mut W` ==> `writer: &mut Sink`
+//@ SUBST `< W : std :: io :: Write >` ==> `<W: IoWrite>`
 //@ SUBST `u8 :: from (` ==> `U8From::from(`
 impl InternalValue {
 //@ FROM src/table/data_block/mod.rs :: impl Encodable < ( ) > for InternalValue :: fn encode_full_into :: OBL C12.14
 //@ SUBST `& self . key . user_key` ==> `self.key.user_key.as_bytes()`
 //@ SUBST `& self . value` ==> `self.value.as_bytes()`
-    fn encode_full_into(
+    fn encode_full_into<W: IoWrite>(
         &self,
-        writer: &mut Sink,
+        writer: &mut W,
         _state: &mut (),
     ) -> /*+*/(r:/*-*/ Result<(), Error>/*+*/)
         requires fits(*self)
-        ensures r is Ok ==> final(writer).written == old(writer).written + full_bytes(*self)/*-*/
+        ensures r is Ok ==> (*final(writer)).written() == (*old(writer)).written() + full_bytes(*self)/*-*/
     {
-        /*+*/let ghost w0 = writer.written;/*-*/
+        /*+*/let ghost w0 = writer.written();/*-*/
         writer.write_u8(U8From::from(self.key.value_type))?; // 1
         writer.write_u64_varint(self.key.seqno)?; // 2
 
@@ -142,7 +151,7 @@ impl InternalValue {
             writer.write_u32_varint(self.value.len() as u32)?; // 5
             writer.write_all(self.value.as_bytes())?; // 6
         }
-        /*+*/proof { assert(writer.written =~= w0 + full_bytes(*self)); }/*-*/
+        /*+*/proof { assert(writer.written() =~= w0 + full_bytes(*self)); }/*-*/
 
         Ok(())
     }
@@ -151,16 +160,16 @@ impl InternalValue {
 //@ FROM src/table/data_block/mod.rs :: impl Encodable < ( ) > for InternalValue :: fn encode_truncated_into :: OBL C12.14
 //@ SUBST `self . key . user_key . get ( shared_len .. )` ==> `self.key.user_key.get_from(shared_len)`
 //@ SUBST `& self . value` ==> `self.value.as_bytes()`
-    fn encode_truncated_into(
+    fn encode_truncated_into<W: IoWrite>(
         &self,
-        writer: &mut Sink,
+        writer: &mut W,
         _state: &mut (),
         shared_len: usize,
     ) -> /*+*/(r:/*-*/ Result<(), Error>/*+*/)
         requires fits(*self), shared_len <= self.key.user_key.view().len()
-        ensures r is Ok ==> final(writer).written == old(writer).written + trunc_bytes(*self, shared_len as int)/*-*/
+        ensures r is Ok ==> (*final(writer)).written() == (*old(writer)).written() + trunc_bytes(*self, shared_len as int)/*-*/
     {
-        /*+*/let ghost w0 = writer.written;/*-*/
+        /*+*/let ghost w0 = writer.written();/*-*/
         writer.write_u8(U8From::from(self.key.value_type))?; // 1
         writer.write_u64_varint(self.key.seqno)?; // 2
 
@@ -180,7 +189,127 @@ impl InternalValue {
             writer.write_u32_varint(self.value.len() as u32)?; // 6
             writer.write_all(self.value.as_bytes())?; // 7
         }
-        /*+*/proof { assert(writer.written =~= w0 + trunc_bytes(*self, shared_len as int)); }/*-*/
+        /*+*/proof { assert(writer.written() =~= w0 + trunc_bytes(*self, shared_len as int)); }/*-*/
+
+        Ok(())
+    }
+//@ END
+
+//@ FROM src/table/data_block/mod.rs :: impl Encodable < ( ) > for InternalValue :: fn key
+//@ SUBST `& self . key . user_key` ==> `self.key.user_key.as_bytes()`
+    fn key(&self) -> /*+*/(r:/*-*/ &[u8]/*+*/) ensures r@ == self.key.user_key.view()/*-*/ {
+        self.key.user_key.as_bytes()
+    }
+//@ END
+}
+
+
+// ---------------- block encoder ----------------
+/// longest_shared_prefix_length (src/table/util.rs; an iterator chain, not verified here): the length of the longest common prefix
+spec fn lspl(a: Seq<u8>, b: Seq<u8>) -> int decreases a.len()
+{ if a.len() > 0 && b.len() > 0 && a[0] == b[0] { 1 + lspl(a.skip(1), b.skip(1)) } else { 0 } }
+#[verifier::external_body]
+fn longest_shared_prefix_length(s1: &[u8], s2: &[u8]) -> (r: usize) ensures r == lspl(s1@, s2@) { unimplemented!() }
+proof fn lemma_lspl_bound(a: Seq<u8>, b: Seq<u8>) ensures 0 <= lspl(a, b) <= a.len(), lspl(a, b) <= b.len() decreases a.len()
+{ if a.len() > 0 && b.len() > 0 && a[0] == b[0] { lemma_lspl_bound(a.skip(1), b.skip(1)); } }
+
+
+const MAX_POINTERS_FOR_HASH_INDEX: usize = 254;
+/// binary_index::Builder: the restart head offsets pushed so far
+struct BinaryIndexBuilder { ghost ptrs: Seq<u32> }
+impl BinaryIndexBuilder {
+    #[verifier::external_body]
+    fn insert(&mut self, pos: u32) ensures final(self).ptrs == old(self).ptrs.push(pos) { unimplemented!() }
+}
+/// hash_index::Builder: the (key, restart index) pairs registered so far (bucket logic: not in this unit)
+struct HashIndexBuilder { ghost buckets: nat, ghost sets: Seq<(Seq<u8>, u8)> }
+impl HashIndexBuilder {
+    #[verifier::external_body]
+    fn bucket_count(&self) -> (r: u32) ensures r == self.buckets { unimplemented!() }
+    #[verifier::external_body]
+    fn set(&mut self, key: &[u8], binary_index_pos: u8) -> (r: bool)
+        requires old(self).buckets > 0
+        ensures final(self).buckets == old(self).buckets, final(self).sets == old(self).sets.push((key@, binary_index_pos))
+    { unimplemented!() }
+}
+
+//@ FROM src/table/block/encoder.rs :: - :: struct Encoder
+//@ SUBST `< 'a , Context : Default , Item : Encodable < Context > >` ==> `<'a>`
+//@ SUBST `phantom : PhantomData < ( Context , Item ) > ,` ==> ``
+//@ SUBST `state : Context` ==> `state: ()`
+struct Encoder<'a> {
+
+    writer: &'a mut Vec<u8>,
+
+    state: (),
+
+    item_count: usize,
+    restart_count: usize,
+
+    restart_interval: u8,
+    // pub(crate) use_prefix_truncation: bool, // TODO: support non-prefix truncation?
+    binary_index_builder: BinaryIndexBuilder,
+    hash_index_builder: HashIndexBuilder,
+
+    base_key: &'a [u8],
+}
+//@ END
+
+/// entry i of a block with restart interval ri starts a restart interval
+spec fn is_head(i: int, ri: int) -> bool { if ri == 0 { i == 0 } else { i % ri == 0 } }
+
+impl<'a> Encoder<'a> {
+//@ FROM src/table/block/encoder.rs :: impl < 'a , Context : Default , Item : Encodable < Context > > Encoder < 'a , Context , Item > :: fn write :: OBL C12.17
+//@ SUBST `item : & 'a Item` ==> `item: &'a InternalValue`
+    fn write(&mut self, item: &'a InternalValue) -> /*+*/(r:/*-*/ Result<(), Error>/*+*/)
+        requires fits(*item), old(self).item_count < usize::MAX, old(self).restart_count < usize::MAX, old(self).writer@.len() <= u32::MAX,
+            // at least one restart head has been written unless this is the first item
+            old(self).item_count > 0 ==> old(self).restart_count > 0,
+        ensures *final(final(self).writer) == *final(old(self).writer),
+            r is Ok ==> ({
+                let head = is_head(old(self).item_count as int, old(self).restart_interval as int);
+                let shared = lspl(old(self).base_key@, item.key.user_key.view());
+                // the entry is appended in full at a restart head, truncated against the current base key otherwise
+                &&& final(self).writer@ == old(self).writer@ + (if head { full_bytes(*item) } else { trunc_bytes(*item, shared) })
+                &&& final(self).item_count == old(self).item_count + 1
+                &&& final(self).restart_interval == old(self).restart_interval
+                // a restart head records its offset in the binary index and becomes the base key
+                &&& final(self).restart_count == old(self).restart_count + (if head { 1int } else { 0 })
+                &&& final(self).base_key@ == (if head { item.key.user_key.view() } else { old(self).base_key@ })
+                &&& final(self).binary_index_builder.ptrs == (if head && old(self).restart_interval > 0 { old(self).binary_index_builder.ptrs.push(old(self).writer@.len() as u32) } else { old(self).binary_index_builder.ptrs })
+                // the key is registered in the hash index under its restart interval when that is addressable
+                &&& final(self).hash_index_builder.buckets == old(self).hash_index_builder.buckets
+                &&& final(self).hash_index_builder.sets == (if old(self).hash_index_builder.buckets > 0 && final(self).restart_count - 1 < MAX_POINTERS_FOR_HASH_INDEX {
+                        old(self).hash_index_builder.sets.push((item.key.user_key.view(), (final(self).restart_count - 1) as u8)) } else { old(self).hash_index_builder.sets })
+            }),/*-*/
+    {
+        // NOTE: Check if we are a restart marker
+        if self
+            .item_count
+            .is_multiple_of(usize::from(self.restart_interval))
+        {
+            self.restart_count += 1;
+
+            if self.restart_interval > 0 {
+                self.binary_index_builder.insert(self.writer.len() as u32);
+            }
+
+            item.encode_full_into(&mut *self.writer, &mut self.state)?;
+
+            self.base_key = item.key();
+        } else {
+            let shared_prefix_len = longest_shared_prefix_length(self.base_key, item.key());
+            /*+*/proof { lemma_lspl_bound(self.base_key@, item.key.user_key.view()); }/*-*/
+            item.encode_truncated_into(&mut *self.writer, &mut self.state, shared_prefix_len)?;
+        }
+
+        let restart_idx = self.restart_count - 1;
+
+        if self.hash_index_builder.bucket_count() > 0 && restart_idx < MAX_POINTERS_FOR_HASH_INDEX {
+            self.hash_index_builder.set(item.key(), restart_idx as u8);
+        }
+
+        self.item_count += 1;
 
         Ok(())
     }
@@ -257,18 +386,26 @@ proof fn lemma_advance(d: Seq<u8>, p: int, a: Seq<u8>, b: Seq<u8>)
 impl InternalValue {
 //@ FROM src/table/data_block/mod.rs :: impl Decodable < DataBlockParsedItem > for InternalValue :: fn parse_full :: OBL C12.14
 //@ SUBST `& mut Cursor < & [ u8 ] >` ==> `&mut Cursor`
-    fn parse_full(reader: &mut Cursor, offset: usize/*+*/, Ghost(e): Ghost<InternalValue>, Ghost(tail): Ghost<Seq<u8>>/*-*/) -> /*+*/(r:/*-*/ Option<DataBlockParsedItem>/*+*/)
-        requires fits(e), 0 <= old(reader).pos <= old(reader).data.len(), old(reader).rest() == full_bytes(e) + tail, offset + old(reader).data.len() <= usize::MAX / 2
-        ensures final(reader).data == old(reader).data, final(reader).pos == old(reader).pos + full_bytes(e).len(),
-            r is Some && r->Some_0.prefix is None && item_matches(r->Some_0, e, old(reader).data, offset as int, 0)/*-*/
+    fn parse_full(reader: &mut Cursor, offset: usize/*+*/, Ghost(oe): Ghost<Option<InternalValue>>, Ghost(tail): Ghost<Seq<u8>>/*-*/) -> /*+*/(r:/*-*/ Option<DataBlockParsedItem>/*+*/)
+        requires 0 <= old(reader).pos <= old(reader).data.len(), offset + old(reader).data.len() <= usize::MAX / 2,
+            // either an entry is stored at the position, or the block's trailer starts there
+            oe is Some ==> fits(oe->Some_0) && old(reader).rest() == full_bytes(oe->Some_0) + tail,
+            oe is None ==> old(reader).pos < old(reader).data.len() && old(reader).data[old(reader).pos] == TRAILER_START_MARKER,
+        ensures final(reader).data == old(reader).data,
+            oe is None ==> r is None,
+            oe is Some ==> final(reader).pos == old(reader).pos + full_bytes(oe->Some_0).len()
+                && r is Some && r->Some_0.prefix is None && item_matches(r->Some_0, oe->Some_0, old(reader).data, offset as int, 0)/*-*/
     {
-        /*+*/let ghost d = reader.data; let ghost p0 = reader.pos;
+        /*+*/let ghost e = oe->Some_0;
+        let ghost d = reader.data; let ghost p0 = reader.pos;
         let ghost k = e.key.user_key.view(); let ghost v = e.value.view(); let ghost vp = value_part(e);
         let ghost t = seq![tag(e.key.value_type)]; let ghost s64 = var64(e.key.seqno); let ghost kl = var16(k.len() as u16);
         proof {
-            assert(full_bytes(e) + tail =~= t + (s64 + (kl + (k + (vp + tail)))));
-            lemma_advance(d, p0, t, s64 + (kl + (k + (vp + tail))));
-            assert(d[p0] == d.subrange(p0, p0 + 1)[0]);
+            if oe is Some {
+                assert(full_bytes(e) + tail =~= t + (s64 + (kl + (k + (vp + tail)))));
+                lemma_advance(d, p0, t, s64 + (kl + (k + (vp + tail))));
+                assert(d[p0] == d.subrange(p0, p0 + 1)[0]);
+            }
         }/*-*/
         let value_type = unwrap!(reader.read_u8());
         if value_type == TRAILER_START_MARKER {
@@ -333,20 +470,26 @@ impl InternalValue {
         reader: &mut Cursor,
         offset: usize,
         base_key_offset: usize/*+*/,
-        Ghost(e): Ghost<InternalValue>, Ghost(shared): Ghost<int>, Ghost(tail): Ghost<Seq<u8>>/*-*/,
+        Ghost(oe): Ghost<Option<InternalValue>>, Ghost(shared): Ghost<int>, Ghost(tail): Ghost<Seq<u8>>/*-*/,
     ) -> /*+*/(r:/*-*/ Option<DataBlockParsedItem>/*+*/)
-        requires fits(e), 0 <= shared <= e.key.user_key.view().len(), 0 <= old(reader).pos <= old(reader).data.len(), old(reader).rest() == trunc_bytes(e, shared) + tail,
-            offset + old(reader).data.len() <= usize::MAX / 2, base_key_offset <= usize::MAX / 2
-        ensures final(reader).data == old(reader).data, final(reader).pos == old(reader).pos + trunc_bytes(e, shared).len(),
-            r is Some && r->Some_0.prefix == Some(SliceIndexes(base_key_offset, (base_key_offset + shared) as usize)) && item_matches(r->Some_0, e, old(reader).data, offset as int, shared)/*-*/
+        requires 0 <= old(reader).pos <= old(reader).data.len(), offset + old(reader).data.len() <= usize::MAX / 2, base_key_offset <= usize::MAX / 2,
+            oe is Some ==> fits(oe->Some_0) && 0 <= shared <= oe->Some_0.key.user_key.view().len() && old(reader).rest() == trunc_bytes(oe->Some_0, shared) + tail,
+            oe is None ==> old(reader).pos < old(reader).data.len() && old(reader).data[old(reader).pos] == TRAILER_START_MARKER,
+        ensures final(reader).data == old(reader).data,
+            oe is None ==> r is None,
+            oe is Some ==> final(reader).pos == old(reader).pos + trunc_bytes(oe->Some_0, shared).len()
+                && r is Some && r->Some_0.prefix == Some(SliceIndexes(base_key_offset, (base_key_offset + shared) as usize)) && item_matches(r->Some_0, oe->Some_0, old(reader).data, offset as int, shared)/*-*/
     {
-        /*+*/let ghost d = reader.data; let ghost p0 = reader.pos;
+        /*+*/let ghost e = oe->Some_0;
+        let ghost d = reader.data; let ghost p0 = reader.pos;
         let ghost k = e.key.user_key.view().skip(shared); let ghost v = e.value.view(); let ghost vp = value_part(e);
         let ghost t = seq![tag(e.key.value_type)]; let ghost s64 = var64(e.key.seqno); let ghost sl = var16(shared as u16); let ghost kl = var16(k.len() as u16);
         proof {
-            assert(trunc_bytes(e, shared) + tail =~= t + (s64 + (sl + (kl + (k + (vp + tail))))));
-            lemma_advance(d, p0, t, s64 + (sl + (kl + (k + (vp + tail)))));
-            assert(d[p0] == d.subrange(p0, p0 + 1)[0]);
+            if oe is Some {
+                assert(trunc_bytes(e, shared) + tail =~= t + (s64 + (sl + (kl + (k + (vp + tail))))));
+                lemma_advance(d, p0, t, s64 + (sl + (kl + (k + (vp + tail)))));
+                assert(d[p0] == d.subrange(p0, p0 + 1)[0]);
+            }
         }/*-*/
         let value_type = unwrap!(reader.read_u8());
         if value_type == TRAILER_START_MARKER {
@@ -414,5 +557,280 @@ impl InternalValue {
 //@ END
 }
 
+
+// ---------------- block decoder: forward scan ----------------
+/// the restart head governing entry i
+spec fn base_of(i: int, ri: int) -> int { i - i % ri }
+spec fn ukey(e: InternalValue) -> Seq<u8> { e.key.user_key.view() }
+/// how entry i of the block is stored (restart interval ri >= 1)
+spec fn code(items: Seq<InternalValue>, i: int, ri: int) -> Seq<u8> {
+    if i % ri == 0 { full_bytes(items[i]) } else { trunc_bytes(items[i], lspl(ukey(items[base_of(i, ri)]), ukey(items[i]))) }
+}
+/// the first k entries, as Encoder::write lays them out
+spec fn body(items: Seq<InternalValue>, k: int, ri: int) -> Seq<u8> decreases k
+{ if k <= 0 { Seq::empty() } else { body(items, k - 1, ri) + code(items, k - 1, ri) } }
+/// entries i.. of the block
+spec fn suffix(items: Seq<InternalValue>, i: int, ri: int) -> Seq<u8> decreases items.len() - i
+{ if i >= items.len() { Seq::empty() } else { code(items, i, ri) + suffix(items, i + 1, ri) } }
+proof fn lemma_body_suffix(items: Seq<InternalValue>, i: int, ri: int)
+    requires 0 <= i <= items.len()
+    ensures body(items, items.len() as int, ri) == body(items, i, ri) + suffix(items, i, ri)
+    decreases items.len() - i
+{
+    if i < items.len() {
+        lemma_body_suffix(items, i + 1, ri);
+        assert(body(items, i + 1, ri) + suffix(items, i + 1, ri) =~= body(items, i, ri) + (code(items, i, ri) + suffix(items, i + 1, ri)));
+    } else {
+        assert(body(items, i, ri) + suffix(items, i, ri) =~= body(items, i, ri));
+    }
+}
+/// a data block payload: the entries, the trailer start marker, then index sections and trailer
+spec fn block_is(d: Seq<u8>, items: Seq<InternalValue>, ri: int, rest: Seq<u8>) -> bool {
+    ri >= 1 && d == body(items, items.len() as int, ri) + seq![TRAILER_START_MARKER] + rest && (forall|i: int| 0 <= i < items.len() ==> fits(#[trigger] items[i]))
+}
+/// at entry i: what is stored there, followed by the rest of the payload
+proof fn lemma_at(d: Seq<u8>, items: Seq<InternalValue>, ri: int, rest: Seq<u8>, i: int)
+    requires block_is(d, items, ri, rest), 0 <= i <= items.len()
+    ensures 0 <= body(items, i, ri).len() < d.len(),
+        i < items.len() ==> d.skip(body(items, i, ri).len() as int) == code(items, i, ri) + d.skip(body(items, i + 1, ri).len() as int)
+            && body(items, i + 1, ri).len() == body(items, i, ri).len() + code(items, i, ri).len(),
+        i == items.len() ==> d[body(items, i, ri).len() as int] == TRAILER_START_MARKER,
+{
+    let b = body(items, i, ri); let t = seq![TRAILER_START_MARKER] + rest;
+    lemma_body_suffix(items, i, ri);
+    assert(d =~= b + (suffix(items, i, ri) + t));
+    if i < items.len() {
+        lemma_body_suffix(items, i + 1, ri);
+        let b1 = body(items, i + 1, ri);
+        assert(b1 =~= b + code(items, i, ri));
+        assert(d =~= b1 + (suffix(items, i + 1, ri) + t));
+        assert(d.skip(b.len() as int) =~= code(items, i, ri) + (suffix(items, i + 1, ri) + t));
+        assert(d.skip(b1.len() as int) =~= suffix(items, i + 1, ri) + t);
+    } else {
+        assert(suffix(items, i, ri) =~= Seq::<u8>::empty());
+        assert(d[b.len() as int] == t[0]);
+    }
+}
+proof fn lemma_lspl_prefix(a: Seq<u8>, b: Seq<u8>)
+    ensures 0 <= lspl(a, b) <= a.len(), lspl(a, b) <= b.len(), a.subrange(0, lspl(a, b)) == b.subrange(0, lspl(a, b))
+    decreases a.len()
+{
+    if a.len() > 0 && b.len() > 0 && a[0] == b[0] {
+        lemma_lspl_prefix(a.skip(1), b.skip(1));
+        let l = lspl(a.skip(1), b.skip(1));
+        assert(a.subrange(0, l + 1) =~= seq![a[0]] + a.skip(1).subrange(0, l));
+        assert(b.subrange(0, l + 1) =~= seq![b[0]] + b.skip(1).subrange(0, l));
+    } else {
+        assert(a.subrange(0, 0) =~= b.subrange(0, 0));
+    }
+}
+
+struct Block { data: Bytes }
+impl Bytes {
+    /// `unsafe { data.get_unchecked(off..) }` wrapped in a Cursor: the precondition is the safety condition of the unchecked access
+    #[verifier::external_body]
+    fn cursor_from(&self, off: usize) -> (r: Cursor) requires off <= self.view().len() ensures r.data == self.view().skip(off as int), r.pos == 0 { unimplemented!() }
+}
+impl Cursor {
+    /// the position as the code reads it (`reader.position() as usize`)
+    spec fn upos(&self) -> usize { self.pos as usize }
+}
+
+//@ FROM src/table/block/decoder.rs :: - :: struct LoScanner
+struct LoScanner {
+    offset: usize,
+    remaining_in_interval: usize,
+    base_key_offset: Option<usize>,
+}
+//@ END
+//@ FROM src/table/block/decoder.rs :: - :: struct HiScanner
+struct HiScanner {
+    offset: usize,
+    ptr_idx: usize,
+    stack: Vec<usize>, // TODO: SmallVec?
+    base_key_offset: Option<usize>,
+}
+//@ END
+//@ FROM src/table/block/decoder.rs :: - :: struct Decoder
+//@ SUBST `< 'a , Item : Decodable < Parsed > , Parsed : ParsedItem < Item > >` ==> `<'a>`
+//@ SUBST `phantom : PhantomData < ( Item , Parsed ) > ,` ==> ``
+struct Decoder<'a> {
+    block: &'a Block,
+
+    lo_scanner: LoScanner,
+    hi_scanner: HiScanner,
+
+    // Cached metadata
+    restart_interval: u8,
+    binary_index_step_size: u8,
+    binary_index_offset: u32,
+    binary_index_len: u32,
+}
+//@ END
+
+/// the parsed item addresses entry e inside the payload d: rest key, shared prefix of the base key, value
+spec fn item_is(it: DataBlockParsedItem, e: InternalValue, d: Seq<u8>) -> bool {
+    &&& it.value_type == e.key.value_type && it.seqno == e.key.seqno
+    &&& it.key.0 <= it.key.1 <= d.len()
+    &&& it.prefix is Some ==> it.prefix->Some_0.0 <= it.prefix->Some_0.1 <= d.len()
+    &&& (if it.prefix is Some { d.subrange(it.prefix->Some_0.0 as int, it.prefix->Some_0.1 as int) } else { Seq::<u8>::empty() }) + d.subrange(it.key.0 as int, it.key.1 as int) == ukey(e)
+    &&& is_tomb(e.key.value_type) ==> it.value is None
+    &&& !is_tomb(e.key.value_type) ==> it.value is Some && it.value->Some_0.0 <= it.value->Some_0.1 <= d.len() && d.subrange(it.value->Some_0.0 as int, it.value->Some_0.1 as int) == e.value.view()
+}
+impl<'a> Decoder<'a> {
+    spec fn d(&self) -> Seq<u8> { self.block.data.view() }
+    /// the front scanner stands before entry i and nothing has been taken from the back
+    spec fn at(&self, items: Seq<InternalValue>, i: int) -> bool {
+        let ri = self.restart_interval as int;
+        &&& self.hi_scanner.base_key_offset is None
+        &&& self.lo_scanner.offset == body(items, i, ri).len()
+        &&& self.lo_scanner.remaining_in_interval == (if i % ri == 0 { 0 } else { ri - i % ri })
+        &&& i % ri != 0 ==> self.lo_scanner.base_key_offset is Some && ({
+                let kp = self.lo_scanner.base_key_offset->Some_0 as int; let hk = ukey(items[base_of(i, ri)]);
+                kp + hk.len() <= self.d().len() && self.d().subrange(kp, kp + hk.len()) == hk })
+    }
+
+//@ FROM src/table/block/decoder.rs :: impl < 'a , Item : Decodable < Parsed > , Parsed : ParsedItem < Item > > Decoder < 'a , Item , Parsed > :: fn parse_current_item :: OBL C12.17
+//@ SUBST `& mut Cursor < & [ u8 ] >` ==> `&mut Cursor`
+//@ SUBST `Option < Parsed >` ==> `Option<DataBlockParsedItem>`
+//@ SUBST `Item :: parse_full (` ==> `InternalValue::parse_full(`
+//@ SUBST `Item :: parse_truncated (` ==> `InternalValue::parse_truncated(`
+    fn parse_current_item(
+        reader: &mut Cursor,
+        offset: usize,
+        base_key_offset: Option<usize>,
+        is_restart: bool/*+*/,
+        Ghost(oe): Ghost<Option<InternalValue>>, Ghost(shared): Ghost<int>, Ghost(tail): Ghost<Seq<u8>>/*-*/,
+    ) -> /*+*/(r:/*-*/ Option<DataBlockParsedItem>/*+*/)
+        requires 0 <= old(reader).pos <= old(reader).data.len(), offset + old(reader).data.len() <= usize::MAX / 2,
+            !is_restart ==> base_key_offset is Some && base_key_offset->Some_0 <= usize::MAX / 2,
+            oe is Some ==> fits(oe->Some_0) && (if is_restart { old(reader).rest() == full_bytes(oe->Some_0) + tail } else { 0 <= shared <= ukey(oe->Some_0).len() && old(reader).rest() == trunc_bytes(oe->Some_0, shared) + tail }),
+            oe is None ==> old(reader).pos < old(reader).data.len() && old(reader).data[old(reader).pos] == TRAILER_START_MARKER,
+        ensures final(reader).data == old(reader).data,
+            oe is None ==> r is None,
+            oe is Some ==> r is Some && item_matches(r->Some_0, oe->Some_0, old(reader).data, offset as int, if is_restart { 0 } else { shared })
+                && final(reader).pos == old(reader).pos + (if is_restart { full_bytes(oe->Some_0).len() } else { trunc_bytes(oe->Some_0, shared).len() })
+                && r->Some_0.prefix == (if is_restart { None } else { Some(SliceIndexes(base_key_offset->Some_0, (base_key_offset->Some_0 + shared) as usize)) }),/*-*/
+    {
+        if is_restart {
+            InternalValue::parse_full(reader, offset/*+*/, Ghost(oe), Ghost(tail)/*-*/)
+        } else {
+            InternalValue::parse_truncated(
+                reader,
+                offset,
+                base_key_offset.expect("should parse truncated item"/*+*/),
+                Ghost(oe), Ghost(shared), Ghost(tail/*-*/),
+            )
+        }
+    }
+//@ END
+}
+
+impl DataBlockParsedItem {
+//@ FROM src/table/data_block/mod.rs :: impl ParsedItem < InternalValue > for DataBlockParsedItem :: fn key_offset
+    fn key_offset(&self) -> /*+*/(r:/*-*/ usize/*+*/) ensures r == self.key.0/*-*/ {
+        self.key.0
+    }
+//@ END
+}
+proof fn lemma_mod_step(i: int, ri: int)
+    requires i >= 0, ri >= 1
+    ensures (i + 1) % ri == (if i % ri == ri - 1 { 0 } else { i % ri + 1 }), 0 <= i % ri < ri,
+        (i + 1) % ri != 0 ==> base_of(i + 1, ri) == base_of(i, ri)
+{
+    lemma_fundamental_div_mod(i, ri);
+    lemma_mod_pos_bound(i, ri);
+    let q = i / ri; let m = i % ri;
+    if m == ri - 1 {
+        lemma_mul_is_distributive_add(ri, q, 1);
+        assert(i + 1 == ri * (q + 1) + 0);
+        lemma_mul_is_commutative(ri, q + 1);
+        lemma_fundamental_div_mod_converse(i + 1, ri, q + 1, 0);
+    } else {
+        lemma_mul_is_commutative(ri, q);
+        lemma_fundamental_div_mod_converse(i + 1, ri, q, m + 1);
+    }
+}
+proof fn lemma_skip_sub(d: Seq<u8>, o: int, a: int, b: int)
+    requires 0 <= o <= a <= b, b - o <= d.skip(o).len(), o <= d.len()
+    ensures d.skip(o).subrange(a - o, b - o) == d.subrange(a, b), b <= d.len()
+{ assert(d.skip(o).subrange(a - o, b - o) =~= d.subrange(a, b)); }
+
+impl<'a> Decoder<'a> {
+//@ FROM src/table/block/decoder.rs :: impl < Item : Decodable < Parsed > , Parsed : ParsedItem < Item > > Iterator for Decoder < '_ , Item , Parsed > :: fn next :: OBL C12.17
+//@ SUBST `Self :: Item` ==> `DataBlockParsedItem`
+//@ SUBST `Cursor :: new ( unsafe { self . block . data . get_unchecked ( self . lo_scanner . offset .. ) } )` ==> `self.block.data.cursor_from(self.lo_scanner.offset)`
+//@ SUBST `let item = Self :: parse_current_item ( $1 ) . inspect ( | item | { $2 } ) ;` ==> `let item = match Self::parse_current_item($1 Ghost(oe), Ghost(shared), Ghost(tail)) { Some(item) => { { $2 } Some(item) } None => None };`
+    fn next(&mut self/*+*/, Ghost(items): Ghost<Seq<InternalValue>>, Ghost(i): Ghost<int>, Ghost(rest): Ghost<Seq<u8>>/*-*/) -> /*+*/(r:/*-*/ Option<DataBlockParsedItem>/*+*/)
+        requires block_is(old(self).d(), items, old(self).restart_interval as int, rest), 0 <= i <= items.len(), old(self).at(items, i), old(self).d().len() <= usize::MAX / 4
+        ensures final(self).block == old(self).block, final(self).restart_interval == old(self).restart_interval, final(self).hi_scanner == old(self).hi_scanner,
+            // the trailer marker ends the scan
+            i == items.len() ==> r is None,
+            // otherwise exactly entry i is yielded (type, seqno, full key = shared prefix of the base key ++ rest, value) and the scanner stands before entry i + 1
+            i < items.len() ==> r is Some && item_is(r->Some_0, items[i], old(self).d()) && final(self).at(items, i + 1),/*-*/
+    {
+        /*+*/let ghost d = self.d(); let ghost ri = self.restart_interval as int;
+        let ghost oe = if i < items.len() { Some(items[i]) } else { None };
+        let ghost hk = ukey(items[base_of(i, ri)]);
+        let ghost shared = if i < items.len() { lspl(hk, ukey(items[i])) } else { 0 };
+        let ghost tail = d.skip(body(items, i + 1, ri).len() as int);
+        let ghost o = self.lo_scanner.offset as int;
+        proof {
+            lemma_at(d, items, ri, rest, i);
+            lemma_mod_step(i, ri);
+            if i < items.len() { lemma_lspl_prefix(hk, ukey(items[i])); }
+            assert(d.skip(o).skip(0) =~= d.skip(o));
+            if i == items.len() { assert(d.skip(o)[0] == d[o]); }
+        }/*-*/
+        if self.hi_scanner.base_key_offset.is_some()
+            && self.lo_scanner.offset >= self.hi_scanner.offset
+        {
+            return None;
+        }
+
+        let is_restart: bool = self.lo_scanner.remaining_in_interval == 0;
+
+        let mut reader =
+            self.block.data.cursor_from(self.lo_scanner.offset);
+
+        let item = match Self::parse_current_item(
+            &mut reader,
+            self.lo_scanner.offset,
+            self.lo_scanner.base_key_offset,
+            is_restart,
+        Ghost(oe), Ghost(shared), Ghost(tail)) { Some(item) => { {
+            self.lo_scanner.offset += reader.position() as usize;
+
+            if is_restart {
+                self.lo_scanner.base_key_offset = Some(item.key_offset());
+            }
+        } Some(item) } None => None };
+
+        if is_restart {
+            self.lo_scanner.remaining_in_interval = usize::from(self.restart_interval) - 1;
+        } else {
+            self.lo_scanner.remaining_in_interval -= 1;
+        }
+
+        /*+*/proof {
+            if i < items.len() {
+                let it = item->Some_0; let e = items[i]; let k = ukey(e);
+                let sh = if is_restart { 0 } else { shared };
+                lemma_skip_sub(d, o, it.key.0 as int, it.key.1 as int);
+                if it.value is Some { lemma_skip_sub(d, o, it.value->Some_0.0 as int, it.value->Some_0.1 as int); }
+                assert(k.subrange(0, sh) + k.skip(sh) =~= k);
+                if !is_restart {
+                    let kp = old(self).lo_scanner.base_key_offset->Some_0 as int;
+                    assert(d.subrange(kp, kp + sh) =~= d.subrange(kp, kp + hk.len()).subrange(0, sh));
+                } else {
+                    assert(k.skip(0) =~= k);
+                    assert(Seq::<u8>::empty() + d.subrange(it.key.0 as int, it.key.1 as int) =~= d.subrange(it.key.0 as int, it.key.1 as int));
+                }
+            }
+        }/*-*/
+        item
+    }
+//@ END
+}
 }
 fn main() {}
